@@ -1,5 +1,13 @@
 import CbiVerif.PP.CSource
-/-! Single-file end-to-end model: parse_file → DirectiveParser.parse → SourceTree.insert → ParserState.associate. -/
+import CbiVerif.Model.Assoc
+/-! Single-file end-to-end model: parse_file → DirectiveParser.parse → SourceTree.insert → ParserState.associate.
+
+Tree building and association are NOT re-implemented here: they are the generic, proved
+definitions of `Model/Tree.lean` (`Cond.build`) and `Model/Assoc.lean` (`Cond.visitList`,
+`Cond.model`, `Cond.semCBI`), instantiated with the macro table of `PP/Expand.lean` and with
+expansion + evaluation (`runExpand`, `evaluate`) as the meaning of a controlling expression.
+`referenceFile` runs the flat ISO-C machine `Cond.reference` (`Spec/CPreproc.lean`) on the same
+line list.  The theorems of `Props/C01.lean` are about exactly these functions. -/
 namespace CbiVerif.PP
 
 inductive NKind | code | ifk | elifk | elsek | endk | define | undef | include | pragma | unrecognized
@@ -24,6 +32,7 @@ def parseDirective (text : String) (lines : List Nat) : Except Err PNode :=
       let unrec : PNode := { kind := .unrecognized, lines := lines }
       match rest with
       | d :: r =>
+        let unrec : PNode := if d.kind == .ident then { unrec with name := d.text } else unrec   -- keep the directive's name
         if d.kind != .ident then .ok unrec
         else if d.text == "define" then
           match macroDefinition r with
@@ -73,126 +82,102 @@ def parseFile (text : String) : Except Err (List PNode) := do
   if codeOpen then nodes := nodes ++ [{ kind := .code, lines := code }]
   return nodes
 
-/-! tree building (zipper model of SourceTree.insert) over node indices -/
+/-! ## Instantiation of the generic C01 model -/
+deriving instance DecidableEq for Macro
+
+def kindOf : NKind → Cond.Kind
+  | .code => .code | .ifk => .ifk | .elifk => .elifk | .elsek => .elsek | .endk => .endk
+  | .define | .undef | .include | .pragma | .unrecognized => .other
+
+/-- payload of node `i`: its own index where the kind has a meaning to decode (`#if/#elif` expression,
+non-conditional directive), 0 for code / `#else` / `#endif` (their payload is never looked at) -/
+def payOf (k : Cond.Kind) (i : Nat) : Nat :=
+  match k with
+  | .code | .elsek | .endk => 0
+  | _ => i
+
+/-- the line list handed to the tree builder / the reference machine: node `i` has id `i` -/
+def labels (nodes : List PNode) : List Cond.Lbl :=
+  nodes.zipIdx.map fun (n, i) => ⟨i, kindOf n.kind, payOf (kindOf n.kind) i⟩
+
+/-- meaning of the payloads: `evaluate_for_platform` of the node with that index.
+`#include`, `#pragma` and unrecognised directives do nothing in the single-file model. -/
+def langOf (nodes : Array PNode) : Cond.Lang Macro Err where
+  act := fun i =>
+    let n := nodes[i]!
+    match n.kind with
+    | .define =>
+      match makeMacro n.name n.margs n.toks with
+      | .ok m => .define n.name m
+      | .error e => .fail e
+    | .undef => .undef n.name
+    | _ => .nop
+  cond := fun tbl i =>
+    match runExpand tbl nodes[i]!.toks with
+    | .ok ts => evaluate ts
+    | .error e => .error e
+    | .sig s => .error (.other s)
+
+abbrev MacroWorld := Cond.MWorld Macro Err
+
+/-- `-D` definitions in command-line order, entered with `define` (model: `Platform.define`, keep first;
+reference: C's `#define`) -/
+def initWorld (define : MacroWorld → String → Macro → MacroWorld) (defs : List String) : Except Err MacroWorld :=
+  defs.foldlM (fun w d => do
+    let m ← macroFromDefinitionString d
+    return define w m.name m) {}
+
+/-! tree shape used by the multi-file model (`PP/Find.lean`): the tree is the one built by `Cond.build` -/
 inductive PTree | node (idx : Nat) (kids : List PTree)
 deriving Repr, Inhabited
 
-structure Frame where
-  idx : Nat
-  opens : Bool
-  kids : List PTree
-
-structure Zip where
-  rootKids : List PTree
-  spine : List Frame
-
-def Zip.up (z : Zip) : Zip :=
-  match z.spine with
-  | [] => z
-  | [f] => { rootKids := z.rootKids ++ [.node f.idx f.kids], spine := [] }
-  | f :: g :: rest => { z with spine := { g with kids := g.kids ++ [.node f.idx f.kids] } :: rest }
-
-def Zip.walk : Nat → Zip → Zip
-  | 0, z => z
-  | n + 1, z => match z.spine with
-    | [] => z
-    | f :: _ => if f.opens then z else Zip.walk n z.up
-
-def isStart (k : NKind) : Bool := k == .ifk
-def isCont (k : NKind) : Bool := k == .elifk || k == .elsek
-def isEnd (k : NKind) : Bool := k == .endk
-
-def Zip.insert (z : Zip) (idx : Nat) (k : NKind) : Except Err Zip :=
-  let fr : Frame := ⟨idx, isStart k || isCont k, []⟩
-  match z.spine with
-  | [] => .ok { z with spine := [fr] }
-  | f :: _ =>
-    if isCont k || isEnd k then
-      let zw := z.walk z.spine.length
-      match zw.spine with
-      | [] => .error .type_          -- reached the root: `None.add_child`
-      | _ =>
-        let z' := zw.up
-        .ok { z' with spine := fr :: z'.spine }
-    else if f.opens then .ok { z with spine := fr :: z.spine }
-    else let z' := z.up; .ok { z' with spine := fr :: z'.spine }
-
-def Zip.closeAll : Nat → Zip → List PTree
-  | 0, z => z.rootKids
-  | n + 1, z => match z.spine with | [] => z.rootKids | _ => Zip.closeAll n z.up
-
-def buildTree (nodes : List PNode) : Except Err (List PTree) := do
-  let mut z : Zip := ⟨[], []⟩
-  for (n, i) in nodes.zipIdx do
-    z ← z.insert i n.kind
-  return Zip.closeAll (z.spine.length + 1) z
-
-/-! association -/
-structure AEnv where
-  tbl : Table := []
-  err : Option Err := none
-  taken : List Bool := []
-  attributed : List Nat := []     -- node indices visited
-
-def evalCond (env : AEnv) (toks : List Tok) : Bool × AEnv :=
-  match env.err with
-  | some _ => (false, env)
-  | none =>
-    match runExpand env.tbl toks with
-    | .ok ts => match evaluate ts with
-      | .ok b => (b, env)
-      | .error e => (false, { env with err := some e })
-    | .error e => (false, { env with err := some e })
-    | .sig s => (false, { env with err := some (.other s) })
-
 mutual
-partial def visit (nodes : Array PNode) (env : AEnv) : PTree → AEnv
-  | .node idx kids =>
-    match env.err with
-    | some _ => env
-    | none =>
-      let n := nodes[idx]!
-      let env := { env with attributed := env.attributed ++ [idx] }
-      match n.kind with
-      | .code | .include | .pragma | .unrecognized => env
-      | .define =>
-        match makeMacro n.name n.margs n.toks with
-        | .ok m => if (env.tbl.get n.name).isSome then env else { env with tbl := env.tbl ++ [(n.name, m)] }
-        | .error e => { env with err := some e }
-      | .undef => { env with tbl := env.tbl.filter (·.1 != n.name) }
-      | .endk => { env with taken := env.taken.tail }
-      | .ifk =>
-        let (a, env) := evalCond env n.toks
-        let env := { env with taken := a :: env.taken }
-        if a then visitList nodes env kids else env
-      | .elifk =>
-        match env.taken with
-        | [] => { env with err := some .index }
-        | t :: ts =>
-          if t then env else
-            let (a, env) := evalCond env n.toks
-            let env := { env with taken := a :: ts }
-            if a then visitList nodes env kids else env
-      | .elsek =>
-        match env.taken with
-        | [] => { env with err := some .index }
-        | t :: ts => if t then env else visitList nodes { env with taken := true :: ts } kids
-partial def visitList (nodes : Array PNode) (env : AEnv) : List PTree → AEnv
-  | [] => env
-  | t :: ts => visitList nodes (visit nodes env t) ts
+def toPTree : Cond.Tree → PTree
+  | .node l kids => .node l.id (toPTrees kids)
+def toPTrees : List Cond.Tree → List PTree
+  | [] => []
+  | t :: ts => toPTree t :: toPTrees ts
 end
 
-/-- analyse one file with `-D` definitions: per node (kind, lines, attributed) -/
-def analyseFile (text : String) (defs : List String) : Except Err (List (NKind × List Nat × Bool)) := do
+/-- `SourceTree.insert` over all nodes; `None.add_child` is an AttributeError (reported as `type_`) -/
+def buildTree (nodes : List PNode) : Except Err (List PTree) :=
+  match Cond.build (labels nodes) with
+  | some ts => .ok (toPTrees ts)
+  | none => .error .type_
+
+abbrev Row := NKind × List Nat × Bool
+
+def rowsOf (nodes : List PNode) (out : List Nat) : List Row :=
+  nodes.zipIdx.map fun (n, i) => (n.kind, n.lines, out.contains i)
+
+/-- MODEL: analyse one file with `-D` definitions: per node (kind, lines, attributed) -/
+def analyseFile (text : String) (defs : List String) : Except Err (List Row) := do
   let nodes ← parseFile text
-  let mut tbl : Table := []
-  for d in defs do
-    let m ← macroFromDefinitionString d
-    if (tbl.get m.name).isNone then tbl := tbl ++ [(m.name, m)]
-  let trees ← buildTree nodes
-  let env := visitList nodes.toArray { tbl := tbl } trees
-  match env.err with
-  | some e => throw e
-  | none => return (nodes.zipIdx).map fun (n, i) => (n.kind, n.lines, env.attributed.contains i)
+  if (Cond.build (labels nodes)).isNone then throw .type_
+  let w ← initWorld Cond.MWorld.defineCBI defs
+  match Cond.model (Cond.semCBI (langOf nodes.toArray)) w (labels nodes) with
+  | none => throw .type_
+  | some a =>
+    if a.crash then throw .index
+    match a.σ.err with
+    | some e => throw e
+    | none => return rowsOf nodes a.out
+
+structure RefResult where
+  rows : List Row
+  bad : Bool            -- structural diagnostic (#else without #if, #elif after #else, …)
+  unterminated : Bool   -- an #if is still open at the end
+  diag : Bool           -- a macro was redefined with a different body (gcc warns)
+  err : Option Err      -- a reached expression / directive is malformed
+  c23 : Bool            -- the unit uses `#elifdef/#elifndef` (C23; gcc >= 12 accepts them silently), which
+                        -- neither CBI nor this reference treats as conditionals: outside the modelled set
+
+/-- SPEC: the flat reference machine on the same line list, with C's `#define` -/
+def referenceFile (text : String) (defs : List String) : Except Err RefResult := do
+  let nodes ← parseFile text
+  let w ← initWorld Cond.MWorld.defineC defs
+  let r := Cond.reference (Cond.semC (langOf nodes.toArray)) w (labels nodes)
+  return { rows := rowsOf nodes r.out, bad := r.bad, unterminated := !r.stack.isEmpty, diag := r.σ.diag, err := r.σ.err,
+           c23 := nodes.any fun n => n.kind == .unrecognized && (n.name == "elifdef" || n.name == "elifndef") }
 
 end CbiVerif.PP
